@@ -8,6 +8,7 @@ import Kodama.DriverC19
 import Kodama.DriverAlloc
 import Kodama.DriverLoc
 import Kodama.DriverHeap
+import Kodama.DriverUF
 namespace Kodama
 
 class Bits (α : Type) where
@@ -51,6 +52,7 @@ structure DriverState where
   c19 : C19State := {}
   alloc : AllocState := {}
   heaps : HeapSlots := {}
+  ufs : UFSlots := {}
 
 def doCall {α} [Num α] [Bits α] (alg : Alg) (m : Method) (chk : Bool) (n : Nat) (bits : Array Nat) :
     String :=
@@ -97,6 +99,9 @@ def step (ds : DriverState) (line : String) : DriverState × String :=
   | "heap" :: rest =>
     let (hs, out) := DriverHeap.stepHeap ds.heaps rest
     ({ ds with heaps := hs }, out)
+  | "uf" :: rest =>
+    let (us, out) := DriverUF.stepUF ds.ufs rest
+    ({ ds with ufs := us }, out)
   | "loc" :: rest => (ds, (Loc.stepLoc rest).getD "bad-op")
   | _ => (ds, "bad-op")
 
